@@ -224,7 +224,7 @@ def run(ctx):
     qcls_ = repo.cls("pyxform.question:InputQuestion")
     n_merge = 0
     bad_merge = []
-    for typ, entry in qtd_all.items():
+    for typ, entry in snapshot.items():
         for sect, dflt in entry.items():
             if not isinstance(dflt, dict) or sect not in ("bind", "control"):
                 continue
@@ -242,6 +242,16 @@ def run(ctx):
                 want = {**dflt, key: own, "extra": "E"}
                 if got != want:
                     bad_merge.append((typ, sect, key, f"{got} != {want}"))
+                # the next question of the same type (same evaluator state, i.e. same process) starts from the pristine defaults
+                try:
+                    q2_ = itq.call(_CV(qcls_), [], {"name": "q2", "type": typ, "label": "L"}, None)
+                    got2_ = (q2_.attrs.get(sect) or {})
+                    if got2_ != dflt:
+                        bad_merge.append((typ, sect, key, f"the next `{typ}` question got {got2_}, the table says {dflt}: the first row's values leaked into the shared table"))
+                    if got2_ is got:
+                        bad_merge.append((typ, sect, key, "two questions share one dict object"))
+                except Raised as e:
+                    bad_merge.append((typ, sect, key, f"second construction raises {e.exc_name}"))
     r4.check(not bad_merge and n_merge >= 100, "Question.__init__[every type x default key overridden]", f"{n_merge} merges: the row's value replaces the type default of the same key, other defaults stay",
              qi.loc(), why_fail="; ".join(f"{t}.{s_}.{k}: {w}" for t, s_, k, w in bad_merge[:3]))
     r4.check(qtd_all == snapshot, "QUESTION_TYPE_DICT unchanged by construction", "building questions writes nothing into the shared type table", qi.loc())
